@@ -36,7 +36,7 @@ def floors(tier):
     f = {"nontrivial": 15, "counter:route_pairs_compared": 800, "counter:symbolic_comparisons": 1500,
          "class:non-unit-magnitude": 40, "class:symbolic-magnitude": 10, "class:has-birth": 40, "class:has-death": 40,
          "counter:births_by_origin": 30, "counter:births_by_destination": 30,
-         "counter:multi_member_events": 100, "counter:mixed_magnitude_events": 30,
+         "counter:multi_member_events": 100, "counter:partial_models_evaluated": 60, "counter:other_model_compiled_first": 400, "counter:mixed_magnitude_events": 30,
          "reach:BaseOdeModel.add_transition": 100, "reach:BaseOdeModel.add_birth_death": 100, "reach:BaseOdeModel.add_ode": 100}
     return f
 
@@ -93,7 +93,17 @@ def build_route(name, S, P, pr, rng, counters):
         m = SimulateOde(state=[(s, (0, None)) for s in S], param=tuple(P))
         q = list(pr)
         rng.shuffle(q)
-        for p in q:
+        # a user building a model step by step looks at it on the way: in half of the cases the partial model is evaluated after a
+        # random number of additions (the finished model must not remember anything of that)
+        peek_at = rng.randint(1, max(1, len(q) - 1)) if rng.random() < 0.5 else None
+        for k_, p in enumerate(q):
+            if peek_at is not None and k_ == peek_at:
+                from pygom.model import ode_utils as _ou
+                m._SC = _ou.compileCode(backend="lambda")
+                m.parameters = [0.5 + 0.1 * i_ for i_ in range(len(P))]
+                xx = np.array([1.0 + 0.5 * i_ for i_ in range(len(S))])
+                m.ode(xx, 0.2), m.jacobian(xx, 0.2), m.eventRateVector(xx, 0.2)
+                counters["partial_models_evaluated"] += 1
             c = rng.random()
             if p[0] == "T" and c < 0.5:
                 m.add_transition(tr(p, True, False, counters))
@@ -155,7 +165,7 @@ def run_case(rng, idx, tier, lane, ctx):
     spec = {"states": S, "params": P, "derived": [], "odes": [], "limits": None, "state_decl": "list", "param_decl": "list",
             "events": [{"rate": p[3], "trans": [[p[0], p[1], p[2], p[4]]]} for p in pr]}
     counters = {"route_pairs_compared": 0, "symbolic_comparisons": 0, "births_by_origin": 0, "births_by_destination": 0,
-                "multi_member_events": 0, "mixed_magnitude_events": 0}
+                "multi_member_events": 0, "mixed_magnitude_events": 0, "partial_models_evaluated": 0, "other_model_compiled_first": 0}
     wit = []
 
     def bad(what, **kw):
@@ -175,6 +185,13 @@ def run_case(rng, idx, tier, lane, ctx):
                 m = build_route(name, S, P, pr, rng, counters)
                 m._SC = ode_utils.compileCode(backend="lambda")
                 m.parameters = list(th)
+                if rng.random() < 0.5:
+                    # another model object compiles its evaluators for the first time before this one is evaluated
+                    other = build_route("event", S, P, pr, rng, counters)
+                    other._SC = ode_utils.compileCode(backend="lambda")
+                    other.parameters = list(th)
+                    other.ode(np.array(x), t), other.jacobian(np.array(x), t), other.eventRateVector(np.array(x), t)
+                    counters["other_model_compiled_first"] += 1
                 sym = rename_to_ref(sympy.Matrix(m.get_ode_eqn()), ref)
                 ode = np.asarray(m.ode(np.array(x), t), dtype=float).reshape(-1)
                 jac = np.asarray(m.jacobian(np.array(x), t), dtype=float)
